@@ -7,32 +7,36 @@ package truthsocial
 // document / body position.
 //@ func IsAccountLookupURL
 //@   opaque
-//@   modifies models.URL::*
+//@   modifies models.URL::*!Hops!Redirects
 //@ func IsAccountURL
 //@   opaque
-//@   modifies models.URL::*
+//@   modifies models.URL::*!Hops!Redirects
 //@ func GenerateAccountLookupURL
 //@   opaque
-//@   modifies models.URL::*
+//@   modifies models.URL::*!Hops!Redirects
+//@   ensures [fresh-urls] freshslice(result0) && forall(j, 0, len(result0), result0[j] == nil || fresh(result0[j])) // assumed: the extractor builds a new list of new URL objects, it never hands back the page's own URL object
 //@ func GenerateOutlinksURLsFromLookup
 //@   opaque
-//@   modifies models.URL::*
+//@   modifies models.URL::*!Hops!Redirects
+//@   ensures [fresh-urls] freshslice(result0) && forall(j, 0, len(result0), result0[j] == nil || fresh(result0[j])) // assumed: the extractor builds a new list of new URL objects, it never hands back the page's own URL object
 //@ func IsPostURL
 //@   opaque
-//@   modifies models.URL::*
+//@   modifies models.URL::*!Hops!Redirects
 //@ func GeneratePostAssetsURLs
 //@   opaque
-//@   modifies models.URL::*
+//@   modifies models.URL::*!Hops!Redirects
 //@ func IsStatusesURL
 //@   opaque
-//@   modifies models.URL::*
+//@   modifies models.URL::*!Hops!Redirects
 //@ func GenerateVideoURLsFromStatusesAPI
 //@   opaque
-//@   modifies models.URL::*
+//@   modifies models.URL::*!Hops!Redirects
 //@ func NeedExtraction
 //@   opaque
-//@   modifies models.URL::*
+//@   modifies models.URL::*!Hops!Redirects
 //@ func ExtractAssets
 //@   opaque
-//@   modifies models.URL::*
+//@   modifies models.URL::*!Hops!Redirects
 //@   ensures forall(a, 0, len(result0), forall(b, 0, len(result1), result0[a] == nil || result0[a] != result1[b])) && forall(b, 0, len(result1), result1[b] == nil || fresh(result1[b]))
+//@   ensures [error-no-outlinks] result2 != nil ==> len(result1) == 0 // assumed (by reading: the named result outlinks is never assigned)
+//@   ensures [fresh-lists] freshslice(result0) && freshslice(result1) && (arrof(result1) != 0 ==> !samearray(result0, result1)) // assumed: the two lists are new and separate
